@@ -74,6 +74,10 @@ def run(ck):
     from . import c15
     cuts, impls, LS, RS = c15.collect_cuts(RuleView(ck, {}))
     c15.per_side_cuts(ck, "C03.9", cuts, impls, LS, RS)
+    ck.clause("C03.14", "label numbers of a fragment count from the whole query on both strands (as C02.5): a joined record that mixes two "
+                        "numberings cannot be replayed from its HitEnum")
+    from .c02 import numbering as _numbering03
+    _numbering03(ck, "C03.14")
     ck.clause("C03.13", "the label tables the cut is counted in hold every label of their map inside the segment - the pairs and the "
                         "unpaired labels of that side (as C15.8): otherwise the k-th label of the two overlapping segments is not the same "
                         "physical label and one label stays paired in both")
